@@ -128,6 +128,9 @@ def _value_leaves(e):
         if x[0] == "call" and isinstance(x[1], str) and (x[1].endswith("]>::get") or x[1].endswith("::index")) and len(x[2]) == 2:
             rec(x[2][0])
             return
+        if x[0] == "index" and len(x) == 3:
+            rec(x[1])
+            return
         if x[0] == "var":
             out.append(x)
         for y in x[1:]:
@@ -151,6 +154,9 @@ def _value_arith(e):
             return
         if x[0] == "call" and isinstance(x[1], str) and (x[1].endswith("]>::get") or x[1].endswith("::index")) and len(x[2]) == 2:
             rec(x[2][0])
+            return
+        if x[0] == "index" and len(x) == 3:
+            rec(x[1])
             return
         if x[0] in ("un", "cast") or (x[0] == "bin" and x[1] not in ("Lt", "Le", "Ge", "Gt", "Eq", "Ne")):
             out.append(x)
